@@ -131,3 +131,51 @@ Print Assumptions C13_history_no_dangling_reference.
 Print Assumptions C13_no_dangling_reference_refuted.
 Print Assumptions C13_session_idempotent.
 Print Assumptions C13_history_session_idempotent_perm.
+
+(* which stored files a trim may remove: Model/Unused.v mirrors _find_external.unused_externals with DiscStorage.list / lookup_all (glob with one star) *)
+From V Require Model.Unused Proofs.UnusedProofs.
+Theorem C13_unused_spec :
+  forall (store : list Unused.str) (refs : list Unused.ref) (n : Unused.str),
+  In n (Unused.unused store refs) <-> In n store /\ forall r, In r refs -> Unused.matches r n = false.
+Proof. exact UnusedProofs.unused_spec. Qed.
+Print Assumptions C13_unused_spec.
+
+(* a file that a reference of a participating test file matches is never handed to trim *)
+Theorem C13_referenced_never_unused :
+  forall (store : list Unused.str) (refs : list Unused.ref) (r : Unused.ref) (n : Unused.str),
+  In r refs -> Unused.matches r n = true -> ~ In n (Unused.unused store refs).
+Proof. exact UnusedProofs.referenced_never_unused. Qed.
+Print Assumptions C13_referenced_never_unused.
+
+(* the way the code computes it: list() minus the union of lookup_all over the references *)
+Theorem C13_unused_as_difference :
+  forall (store : list Unused.str) (refs : list Unused.ref) (n : Unused.str),
+  In n (Unused.unused store refs) <-> In n store /\ ~ exists r, In r refs /\ In n (Unused.lookup_all store r).
+Proof. exact UnusedProofs.unused_as_difference. Qed.
+Print Assumptions C13_unused_as_difference.
+
+(* a reference with fewer hash characters (smaller hash-length, shortened by hand) matches whatever the longer one matched *)
+Theorem C13_unused_shorter_prefix_still_matches :
+  forall (p q s n : Unused.str), Unused.matches (Unused.Glob (p ++ q) s) n = true -> Unused.matches (Unused.Glob p s) n = true.
+Proof. exact UnusedProofs.shorter_prefix_still_matches. Qed.
+Print Assumptions C13_unused_shorter_prefix_still_matches.
+
+(* the reference inline-snapshot writes (first characters of the hash, a star, the suffix) matches the file, persisted (infix empty) or not yet persisted (infix "-new") *)
+Theorem C13_written_reference_matches :
+  forall (h1 h2 infix s : Unused.str), Unused.matches (Unused.Glob h1 s) (h1 ++ h2 ++ infix ++ s) = true.
+Proof. exact UnusedProofs.written_reference_matches. Qed.
+Print Assumptions C13_written_reference_matches.
+
+Theorem C13_unused_antitone :
+  forall (store : list Unused.str) (refs refs' : list Unused.ref) (n : Unused.str),
+  incl refs refs' -> In n (Unused.unused store refs') -> In n (Unused.unused store refs).
+Proof. exact UnusedProofs.unused_antitone. Qed.
+Print Assumptions C13_unused_antitone.
+
+Theorem C13_unused_example :
+  let store := [[1; 2; 3; 4; 46; 116]; [1; 2; 9; 9; 46; 116]; [5; 5; 5; 5; 45; 110; 46; 116]]%N in
+  Unused.unused store [Unused.Glob [1; 2; 3]%N [46; 116]%N] = [[1; 2; 9; 9; 46; 116]; [5; 5; 5; 5; 45; 110; 46; 116]]%N
+  /\ Unused.unused store [Unused.Glob [1; 2]%N [46; 116]%N; Unused.Glob [5]%N [46; 116]%N] = []
+  /\ Unused.unused store [] = store.
+Proof. exact UnusedProofs.unused_example. Qed.
+Print Assumptions C13_unused_example.
